@@ -82,7 +82,8 @@ CLAIMED = {
              "class), requests the server rejects itself, and client-controlled CR/LF/control bytes in target, header values and "
              "Basic-auth user under every access_log_format atom are judged by TLC (specs/AccessTrace.tla) against the status and "
              "body length read from the wire."
-             " Real servers (access log file or a handler on the root logger through logconfig_dict, several log levels, idle keep-alive connections, a multi-megabyte file to a client that reads late) are judged the same way.",
+             " Real servers (access log file or a handler on the root logger through logconfig_dict, several log levels, idle keep-alive connections, a multi-megabyte file to a client that reads late) are judged the same way."
+             " Log rotation against a record being written: specs/LogReopen.tla (line-grain emit path, handler lock, signal checkpoints) is checked by TLC; the real Logger.reopen_files() is called from another thread at every source-line boundary of the real Logger.access(), and real SIGUSR1s from another process rotate the file while records are written (specs/LogReopenTrace.tla).",
         design_ref="DESIGN.md 4 C19, 9",
         technique="TLA+ model checking of byte accounting / record sites + TLC trace validation of real access records vs. the wire"),
     "C08": dict(
